@@ -1,5 +1,7 @@
 package helpers
 
+import "reflect"
+
 // IsTruthy converts a value to boolean following Vue semantics.
 // For bound attributes, false values should not render the attribute.
 func IsTruthy(val any) bool {
@@ -41,6 +43,22 @@ func IsTruthy(val any) bool {
 	case nil:
 		return false
 	default:
+		// named types (type Count int, type Flag bool, ...) follow the
+		// rule of their underlying kind
+		rv := reflect.ValueOf(val)
+		switch rv.Kind() {
+		case reflect.Bool:
+			return rv.Bool()
+		case reflect.String:
+			s := rv.String()
+			return s != "" && s != "false"
+		case reflect.Int, reflect.Int8, reflect.Int16, reflect.Int32, reflect.Int64:
+			return rv.Int() != 0
+		case reflect.Uint, reflect.Uint8, reflect.Uint16, reflect.Uint32, reflect.Uint64, reflect.Uintptr:
+			return rv.Uint() != 0
+		case reflect.Float32, reflect.Float64:
+			return rv.Float() != 0
+		}
 		return true
 	}
 }
